@@ -25,7 +25,8 @@ OUTCOMES_OK = ['done']
 OUTCOMES_FAIL = ['failed', 'raise', 'raise_value', 'raise_type', 'raise_exit']
 OUTCOMES_MALFORMED = ['none', 'nonpair', 'triple', 'badstatus_str', 'badstatus_int',
                       'badupdate_int', 'badupdate_list', 'badupdate_emptylist', 'badupdate_zero',
-                      'badupdate_emptystr', 'partial_clash']
+                      'badupdate_emptystr', 'partial_clash', 'badstatus_waiting',
+                      'badstatus_pending']
 # updates that are mappings but cannot be merged into the environment (C03 only: whether the
 # merge fails depends on which task publishes first, so C01/C02 have no schedule-free model)
 OUTCOMES_UNMERGEABLE = ['clash_scalar', 'clash_mapping', 'ownsection_scalar']
@@ -138,6 +139,10 @@ class Probe(Task):
             return update, 'fine'
         if kind == 'badstatus_int':
             return update, 7
+        if kind == 'badstatus_waiting':        # a task status, but not one a finished task can have
+            return update, TaskStatus.WAITING
+        if kind == 'badstatus_pending':
+            return update, TaskStatus.PENDING
         if kind == 'badupdate_int':
             return 3, TaskStatus.DONE
         if kind == 'badupdate_list':
